@@ -420,7 +420,7 @@ def run(ctx):
     # ---- 2. histories -----------------------------------------------------------------------------------
     rd = tlc.run("ClassTreeCopy", "ClassTreeCopy_asbuilt_dev%s.cfg" % variant, workers=1)
     ctx.add_tlc(rd, "as-built: every shortest history (<= 3 steps) after which the pointer semantics first deviates (DEV log)")
-    dev_hist = []
+    dev_hist, dev_expect = [], []
     seen = set()
     for d in rd.tr("DEV"):
         h = [strip(a) for a in d["hist"]]
@@ -428,9 +428,13 @@ def run(ctx):
         if k not in seen:
             seen.add(k)
             dev_hist.append(h)
+            dev_expect.append([a["expect"] for a in d["hist"]])      # value semantics, independent of the switches
     if len(dev_hist) < 20:
         raise MachineryError("only %d as-built deviation histories - DEV log broken?" % len(dev_hist))
-    dev_ev = eval_histories(ctx, dev_hist, "ClassTreeCopyTrace_intended.cfg", "expected observations for the %d directed histories" % len(dev_hist))
+    if not thorough:       # quick: a seeded third of the (historical) as-built deviations
+        import random as _r
+        pick = sorted(_r.Random(ctx.seed + 41).sample(range(len(dev_hist)), len(dev_hist) // 3))
+        dev_hist, dev_expect = [dev_hist[k] for k in pick], [dev_expect[k] for k in pick]
     # value-state graphs (TR-log) of three edit universes:
     #   u1 (3 trees): symbols on Leaf / Mid, equation E1 on Leaf, remove / re-add class Leaf
     #   u2 (2 trees): additions to EMPTY containers (symbol on Bare, equation on Leaf, initial equation on Top) and
@@ -452,8 +456,8 @@ def run(ctx):
     global _ITEMS
     _ITEMS = []
     kinds = []
-    for h, ev in zip(dev_hist, dev_ev):
-        _ITEMS.append((h, [e["expect"] for e in ev], thorough or len(_ITEMS) % 4 == 0))
+    for h, ex in zip(dev_hist, dev_expect):
+        _ITEMS.append((h, ex, thorough or len(_ITEMS) % 4 == 0))
         kinds.append("asbuilt-directed")
     gstats = {}
     import random
@@ -471,7 +475,7 @@ def run(ctx):
             for n, p in enumerate(plist):
                 st = g.steps(p)
                 acts = [s[1] for s in st]
-                extras = thorough or kind == "walk" or n % 4 == 0
+                extras = thorough or (kind == "walk" and n % 2 == 0) or n % 6 == 0
                 _ITEMS.append(([strip(a) for a in acts], [a["expect"] for a in acts], extras))
                 kinds.append(name + "-" + kind)
     results = pmap(_w, range(len(_ITEMS)), procs)
